@@ -272,6 +272,68 @@ def check_guards(project: Project, rep):
         rep.unmodelled("KN-REGIME", fi, f, "series/expansion split not found")
 
 
+def check_stale(project: Project, rep):
+    """KN-STALE: in bvn_cdf the sign of dk/hk is flipped for negative correlation; every quantity that enters the
+    expansion afterwards must be computed from the flipped values. A name defined from hk/dk *before* the flip and used
+    *after* it (where the flipped hk/dk are also live) is stale: part of the formula sees +hk, the rest −hk."""
+    fi = project.function(f"{MOD}.bvn_cdf")
+    f = fi.node
+    cfg = CFG(f)
+    rd = cfg.reaching_definitions()
+    # the conditionally re-defined names: x = -x
+    flips = {}
+    for n in ast.walk(f):
+        if isinstance(n, ast.Assign) and isinstance(n.targets[0], ast.Name) and isinstance(n.value, ast.UnaryOp) \
+                and isinstance(n.value.op, ast.USub) and isinstance(n.value.operand, ast.Name) \
+                and n.value.operand.id == n.targets[0].id:
+            node = cfg.node_of(n)
+            if node is not None:
+                flips[n.targets[0].id] = node.id
+    if not flips:
+        rep.unmodelled("KN-STALE", fi, f, "sign flip of the standardised arguments for negative correlation not found")
+        return
+    # direct dependence of each definition on the flipped names (transitively through single assignments)
+    def_deps = {}
+    for nd in cfg.nodes:
+        for name, a in cfg.defs_of(nd):
+            val = getattr(a, "value", None)
+            if val is None:
+                continue
+            used = {x.id for x in ast.walk(val) if isinstance(x, ast.Name)}
+            def_deps[(nd.id, name)] = used
+    n_checked = 0
+    for nd in cfg.nodes:
+        a = nd.ast
+        if a is None or nd.kind not in ("stmt", "return", "test"):
+            continue
+        exprs = [a.test] if nd.kind == "test" and hasattr(a, "test") else ([a.value] if hasattr(a, "value") and a.value is not None else [])
+        for ex in exprs:
+            for x in ast.walk(ex):
+                if not (isinstance(x, ast.Name) and isinstance(x.ctx, ast.Load)):
+                    continue
+                y = x.id
+                for d in rd[nd.id].get(y, ()):  # definitions of y reaching this use
+                    deps = def_deps.get((d, y), set())
+                    for v, flip_node in flips.items():
+                        if v == y or v not in deps:
+                            continue
+                        n_checked += 1
+                        # which definitions of v did y's definition see, and which are live at this use?
+                        seen = rd[d].get(v, set())
+                        live = rd[nd.id].get(v, set())
+                        if y in flips:
+                            continue  # the quantity is flipped itself
+                        on_path = flip_node in cfg.reachable_from(d) and nd.id in cfg.reachable_from(flip_node)
+                        if flip_node in live and flip_node not in seen and d != flip_node and on_path:
+                            rep.refuted("KN-STALE", fi, a,
+                                        f"`{y}` was computed from `{v}` before the sign flip `{v} = -{v}` for negative correlation but "
+                                        f"is used after it: this term of the expansion sees the un-flipped `{v}` while the others see "
+                                        f"the flipped one (wrong CDF for correlations in (−1, −0.925])",
+                                        construct=f"{fi.qualname}: stale {y} (from {v}) used after the flip",
+                                        failing_input="gaussian kernel with correlation −0.93: pixel error 1.2e-2")
+    rep.discharged("KN-STALE", fi, f, f"{n_checked} uses of quantities derived from the flipped arguments: none is stale")
+
+
 # ----------------------------------------------------------------------------- evaluator-based rules
 
 def _S(n):
@@ -476,10 +538,11 @@ def run(project: Project, rep, tier: str):
                "docstring (its constants are the specification of the guards and regimes)")
     check_gl(project, rep)
     check_guards(project, rep)
+    check_stale(project, rep)
     check_norm_uniform_sbvn(project, rep)
     check_bvn_terms(project, rep)
     check_dispatch(project, rep)
-    for rn, n in (("KN-GL", 3), ("KN-REGIME", 2), ("KN-AFF", 3), ("KN-UNITS", 6), ("KN-NORM", 1), ("KN-UNI", 1),
+    for rn, n in (("KN-GL", 3), ("KN-REGIME", 2), ("KN-AFF", 3), ("KN-UNITS", 6), ("KN-NORM", 1), ("KN-UNI", 1), ("KN-STALE", 1),
                   ("KN-SBVN", 1), ("KN-DISPATCH", 3)):
         rep.floor(rn, n)
     for t in ("scipy.special.erfc", "numpy.exp", "numpy.arcsin", "numpy.sqrt", "numpy.maximum", "numpy.minimum"):
